@@ -1418,7 +1418,11 @@ def frag_bool(rng, d, div="all", opnds="all"):
             # the LIKE family over string-valued operands, with or without escape=
             return [rng.choice(LIKES), frag_str(rng, rng.randint(0, 2), div, opnds), frag_str(rng, rng.randint(0, 2), div, opnds),
                     rng.choice([None, None, "/", "!", "a"])]
-        if x < 0.75:
+        if x < 0.68:
+            # BETWEEN over numeric trees (arithmetic bounds: their operators lie above BETWEEN)
+            return ["between", frag_num(rng, rng.randint(0, 2), div), frag_num(rng, rng.randint(0, 2), div),
+                    frag_num(rng, rng.randint(0, 2), div)]
+        if x < 0.8:
             # IN / NOT IN with a non-empty list of literals (NULL allowed: three-valued)
             n = rng.choice([1, 2, 3, 4])
             if rng.random() < 0.7:
